@@ -332,6 +332,9 @@ func sliceBase(sort string) string { return unsym(sort) }
 
 func (w *World) SlLen(s *Term) *Term {
 	b := sliceBase(s.Sort)
+	if s.K == KApp && s.Name == "ite" {
+		return Ite(s.Args[0], w.SlLen(s.Args[1]), w.SlLen(s.Args[2]))
+	}
 	// len(app(s, mk(a,0,1))) etc. fold a little
 	if s.K == KApp {
 		switch s.Name {
@@ -350,6 +353,9 @@ func (w *World) SlLen(s *Term) *Term {
 
 func (w *World) SlAt(s, i *Term) *Term {
 	b := sliceBase(s.Sort)
+	if s.K == KApp && s.Name == "ite" {
+		return Ite(s.Args[0], w.SlAt(s.Args[1], i), w.SlAt(s.Args[2], i))
+	}
 	if s.K == KApp {
 		switch s.Name {
 		case "mk:" + b:
